@@ -9,8 +9,9 @@ SPEC = {
                  'C33_light_block_never_panics', 'C33_light_block_example',
                  'C33_download_reply_never_panics', 'C33_download_reply_go_level', 'C33_download_accepts_only_requested',
                  'C33_download_job_survives', 'C33_download_loop_total', 'C33_download_job_delivers_sent',
-                 'C33_download_job_example', 'C33_serve_handlers_total', 'C33_serve_request_refuted',
-                 'C33_serve_request_partial', 'C33_serve_request_example', 'C33_peer_handlers_total',
+                 'C33_download_job_example', 'C33_serve_handlers_total', 'C33_serve_request',
+                 'C33_serve_request_example', 'C33_chain_get_blocks_total', 'C33_chain_get_blocks_example',
+                 'C33_peer_handlers_total',
                  'C33_peer_handlers_example'],
     'allowed_axioms': [],
     'shard': 60,
@@ -45,13 +46,15 @@ SPEC = {
             'reset, short / wrong 17-byte header, undecodable, oversized, truncated frame, no Message, EMPTY item list, first '
             'item without value / with a transaction, wrong height, several items, a Block or a request as the frame; '
             'observables: acknowledgement, survival, blocks handed to the blockchain module, requests seen per peer and '
-            'height. "net-srv" / "net-srv-guarded" 60+30 (1200+600) histories of 2-6 requests to the node\'s two download '
+            'height. "net-srv" / "net-srv-nonneg" 60+30 (1200+600) histories of 2-6 requests to the node\'s two download '
             'stream handlers (old: nil Message, both: wrong header, garbage, ranges from a table of int64 edge values, around '
-            '256, tip 0-6, stub answering blocks / empty list / error); guarded = non-negative start (guard of '
-            'C33_serve_request_partial: every spec failure there is a violation); observables: range forwarded to the '
+            '256, tip 0-6, stub answering blocks / empty list / error); nonneg = starts mapped to non-negative values (more '
+            'requests get past the first test); every spec failure (a forwarded range that is not '
+            '0 <= End-Start <= 256) is a violation; observables: range forwarded to the '
             'blockchain module, what the requester read (blocks / end of stream / reset). "net-srvlive": the same handlers in '
-            'front of a REAL test-node blockchain, 7 requests, observable = request at which the child dies (reproduces known '
-            'finding 4). "net-ver" 50 (1000) histories of 3-6 requests to handleStreamVersion / handleStreamVersionOld (26 '
+            'front of a REAL test-node blockchain, 17 requests: the ranges whose int64 difference wraps (witness of repaired '
+            'finding 4) through both handlers, then the same ranges straight to the blockchain module through the queue as the '
+            'rpc module sends them; observable = request at which the child dies (none). "net-ver" 50 (1000) histories of 3-6 requests to handleStreamVersion / handleStreamVersionOld (26 '
             'address strings: public, private, loopback, IPv6, non-numeric / overflowing / signed ports, too few parts, '
             'not a multiaddr; other channel; nil Message; wrong header): reply AddrFrom, end of stream / reset, address-book '
             'and blacklist effects. "net-lim": the node\'s own peer-info queries (1 s ticker of the real peer protocol, 6 '
@@ -90,18 +93,19 @@ SPEC = {
         'hash list already occupies 16 bytes per hash plus the strings). An environment assumption about memory, not about a '
         'number in the message; C33_crash_characterisation shows it is the only way left to end the process in the model',
         'the block filter (LRU of 1024 hashes) never evicts within a history',
-        'C33_serve_request_partial: guard sreq_nonneg = the decoded request has StartHeight >= 0 (boolean); int64 field values; '
-        'memory for 257 pointers. Without the guard the statement is refuted (C33_serve_request_refuted, known finding 4)',
+        'C33_serve_request / C33_chain_get_blocks_total: request fields and the chain height are int64 values (their Go type); '
+        'memory for 257 resp. 1000 pointers',
     ],
     'manifest': {
         'level_text': 'partial: proved for the modelled index/allocation/nil logic of the light-block and peer-message paths '
-                      '(after three repairs in chain33 no history of peer messages, pool changes and loop iterations ends the '
+                      '(after repairs in chain33 no history of peer messages, pool changes and loop iterations ends the '
                       'process or panics in a background loop, given memory for a slice as long as a received hash list), of the '
                       'download reply decoder / retry loop / job (no reply panics the per-height goroutines, only a first-item '
-                      'block of the requested height is accepted), of the two serving-side download handlers (total; one open '
-                      'finding: the int64 range test wraps and a request with a huge negative start reaches a fatal allocation '
-                      'in the blockchain module - refuted + partial for non-negative starts) and of the version / version-limit '
-                      'handlers (total); everything else is outside the model',
+                      'block of the requested height is accepted), of the two serving-side download handlers (total; after a fourth '
+                      'repair - the int64 range test wrapped for a huge negative start and the request reached a fatal allocation '
+                      'in the blockchain module - every int64 request is survived and every forwarded range has a non-negative '
+                      'start and at most 257 heights; ProcGetBlockDetailsMsg itself answers every int64 range with an error or at most '
+                      '1000 blocks) and of the version / version-limit handlers (total); everything else is outside the model',
         'level_note': 'model = hand-written Gallina transcription of addLtBlock/buildPendBlock/buildPendList/pendBlockLoop/'
                       'handlePeerMsg/addBlockRequest/handleBlockReqList with explicit Go panic semantics; mempool and chain '
                       'are stubs; hook file builds the component without libp2p; Streams.v = transcription of '
